@@ -157,6 +157,13 @@ def oracle(line, out):
             node = node.ckd(i)
         if impl.nodeS(node).split(" ")[:8] != ("N " + v[2:]).split(" ")[:8] and impl.nodeS(node) != v:
             return "by_path(%r) differs from applying each component in order (levels %s)" % (s, want)
+        # the node PRINTS as the path it was looked up by (relative to the wallet's root key, whatever that key is)
+        if len(want) <= 5:
+            shown = unstr(v.split(" ")[8])
+            expect = ("M" if is_pub else "m") + "".join(
+                "/%d'" % (i - 2 ** 31) if i >= 2 ** 31 else "/%d" % i for i in want)
+            if shown != expect:
+                return "node looked up by %r prints as %r (expected %r)" % (s, shown, expect)
         return None
     return None
 
